@@ -43,6 +43,7 @@ func ruleDEPTH1(c *Ctx) []Ob {
 			n++
 			key := fmt.Sprintf("%s/the depth handed down is computed from the parameter %s itself", c.fname(fn), p.Name())
 			bad := ""
+			sameLevel := false
 			// every integer argument of a library call, and every integer stored into a map, that derives
 			// from the parameter is the parameter or parameter + constant
 			fromParam := func(v ssa.Value) (derived, direct bool) {
@@ -74,6 +75,26 @@ func ruleDEPTH1(c *Ctx) []Ob {
 						if g == nil || !c.IsLib(c.declared(g)) {
 							continue
 						}
+						// a walk of an embedded struct (this function again, or another self-recursive walk of the
+						// package that carries a depth) is one level deeper: it gets the own depth plus a constant
+						if gd := c.declared(g); c.pkgRel(gd) == "internal" && gd.Parent() == nil {
+							for ai, a := range x.Call.Args {
+								if a != ssa.Value(p) || ai >= len(gd.Params) || !isIntType(gd.Params[ai].Type()) {
+									continue
+								}
+								walks := false
+								gp := gd.Params[ai]
+								allCalls(gd, func(gc ssa.CallInstruction) {
+									if h := staticCallee(gc); h != nil && c.declared(h) == gd && ai < len(gc.Common().Args) && gc.Common().Args[ai] != ssa.Value(gp) {
+										walks = true
+									}
+								})
+								if walks {
+									bad = fmt.Sprintf("%s: %s, which walks the fields of an embedded struct, is given the own depth", relPath(c, x.Pos()), c.fname(gd))
+									sameLevel = true
+								}
+							}
+						}
 						for _, a := range x.Call.Args {
 							if !isIntType(a.Type()) {
 								continue
@@ -92,7 +113,9 @@ func ruleDEPTH1(c *Ctx) []Ob {
 					}
 				}
 			}
-			if bad != "" {
+			if bad != "" && sameLevel {
+				o.add(VIOLATED, key, relPath(c, fn.Pos()), "%s instead of depth + 1: the names behind the embedded field are taken at the depth of the enclosing struct, so a field the struct declares after it under the same name finds the name taken and is neither stored nor kept", bad)
+			} else if bad != "" {
 				o.add(VIOLATED, key, relPath(c, fn.Pos()), "%s: the own depth is incremented in place instead of handing down depth + 1 - after the first embedded struct every later field of the same struct counts as one level deeper, a name promoted from the embedded struct wins over the struct's own field declared after it, and the document no longer agrees with encoding/json on the way back", bad)
 			} else {
 				o.add(OK, key, relPath(c, fn.Pos()), "every depth handed to a library call or recorded in a map is the parameter or the parameter plus a constant")
